@@ -27,7 +27,7 @@ MFS_SET = [2 ** 14, 2 ** 14 + 1, 2 ** 14 + 5, 2 ** 15, 65535, 2 ** 24 - 1]
 
 
 def n_cases(tier):
-    return 2400 if tier == 'quick' else 150000
+    return 2400 if tier == 'quick' else 36000
 
 
 def sized_headers(rng, t, base, target):
